@@ -231,6 +231,17 @@ Byte:
 			// Ignoring error because this scanner cannot produce errors.
 			advance, _, _ := textseg.ScanGraphemeClusters(buf[i:], true)
 
+			// A grapheme cluster must not swallow a byte that is
+			// significant to this scanner: some characters (those with
+			// the "Prepend" grapheme break property) form a cluster with
+			// whatever follows them, including a closing quote.
+			for k := 1; k < advance; k++ {
+				if c := buf[i+k]; c == '"' || c == '\\' || c < 32 {
+					advance = k
+					break
+				}
+			}
+
 			p.Pos.Byte += advance
 			p.Pos.Column++
 			i += advance
